@@ -20,7 +20,7 @@ func init() {
 			"(1) prefix bytes untouched and the source's observation unchanged by Encode; (2) decoded mapping Equals the source's and the decoded observation is bitwise the source's (bin-for-bin through the fold model when the target is bounded); arbitrary float weights: per bin |decoded-v| <= ulp(v+1); (3) X.DecodeAndMergeWith(Encode(Y)) is identical to X.MergeWith(Y); (4) decoding Encode(A)||Encode(B)||... equals merging A, B, ...; (5) the independent parser recovers the model content. " +
 			"Non-trivial = encoding with >=2 store blocks or a layout other than contiguous counts; distinct = hash of the histories.",
 		Cases:     core.Scale(40000, 1000000),
-		Mandatory: []string{"oracle.roundtrip_equalities", "oracle.append_only_checks", "oracle.source_unchanged", "oracle.decode_merge_equivalence", "oracle.concatenation_checks", "oracle.independent_parse", "oracle.lossy_weight_checks", "layout.positive.index_deltas", "layout.positive.index_deltas_and_counts", "layout.positive.contiguous_counts", "decode.omitted_mapping", "decode.into_bounded_target", "wide.bins_more_than_2^31_apart", "fine_weights.nine_byte_varfloats", "decode.exact_encoding_with_plain_decoder", "encode.of_unread_source", "decode.into_recycled_stores"},
+		Mandatory: []string{"oracle.roundtrip_equalities", "oracle.append_only_checks", "oracle.source_unchanged", "oracle.decode_merge_equivalence", "oracle.concatenation_checks", "oracle.independent_parse", "oracle.lossy_weight_checks", "layout.positive.index_deltas", "layout.positive.index_deltas_and_counts", "layout.positive.contiguous_counts", "decode.omitted_mapping", "decode.into_bounded_target", "wide.bins_more_than_2^31_apart", "fine_weights.nine_byte_varfloats", "decode.exact_encoding_with_plain_decoder", "encode.of_unread_source", "decode.into_recycled_stores", "oracle.buffer_reuse_checks"},
 		Assumptions: []string{
 			"dyadic weights under the exactness budget survive the (v+1)-1 transform exactly",
 		},
@@ -456,6 +456,52 @@ func runC06(c *core.Ctx) {
 		o1.HasSum, o2.HasSum = false, false
 		if dd := o2.Diff(o1); dd != "" {
 			c.Failf("concat.differs", "decoding a concatenation of %d encodings differs from merging the sketches (merged vs decoded) into %s: %s", k, target, dd)
+			return
+		}
+	}
+	// (6) the caller's buffer stays the caller's: A is encoded into a nil (or empty, capacity-less) buffer, the
+	// caller then reuses that buffer for something else, and A encoded again gives the same bytes as the first time
+	if !c.Failed() {
+		var first, again []byte
+		if c.Guard("Encode (buffer reuse)", func() {
+			var b1 []byte
+			if r.Bool() {
+				b1 = []byte{}
+			}
+			A.s.I().Encode(&b1, false)
+			first = append([]byte{}, b1...)
+			b1 = b1[:0]
+			if r.Bool() {
+				for i := 0; i < cap(b1) && i < 64; i++ {
+					b1 = append(b1, 0xEE)
+				}
+			} else {
+				other := mon.NewSketch(exact, m.M, gen.RandPlainStore(r))
+				other.I().AddWithCount(0, 3)
+				other.I().Encode(&b1, false)
+			}
+			again = make([]byte, 0, r.Intn(2)*64)
+			A.s.I().Encode(&again, false)
+		}) {
+			return
+		}
+		c.Count("oracle.buffer_reuse_checks", 1)
+		// (the bytes themselves may differ: the sparse store writes its bins in map order) the second encoding
+		// must still be one of this sketch: decodable without a supplied mapping, same mapping, same content
+		sp := gen.StoreSpec{Kind: gen.SSparse}
+		d, derr := mon.Decode(exact, again, sp, nil)
+		if derr != nil {
+			c.Failf("encode.depends_on_caller_buffer", "after the caller reused the buffer of an earlier encoding, the sketch encodes to %d bytes (%d the first time) that decode with %v: % x", len(again), len(first), derr, truncBytes(again, 60))
+			return
+		}
+		if !d.Mapping().Equals(m.M) {
+			c.Failf("encode.depends_on_caller_buffer", "after the caller reused the buffer of an earlier encoding, the sketch encodes another mapping")
+			return
+		}
+		tm := mon.NewSketchModel(m, sp)
+		tm.Merge(A.mdl)
+		mon.CheckSketchBinsOnly(c, "encoded_again_after_buffer_reuse", d, tm)
+		if c.Failed() {
 			return
 		}
 	}
